@@ -1366,6 +1366,15 @@ class Converter:
                 onnx_var = self._emit_copy(onnx_var, pv)
             self._current_fn.outputs.append(onnx_var)
         body = self._exit_scope()
+        for pv in loop_state_vars:
+            # A loop-state variable is assigned in the loop body, hence local to the function:
+            # its initial value must come from a local scope, never from the module globals.
+            if not any(pv in scope for scope in self._locals):
+                self._fail(
+                    loop_stmt,
+                    f"Variable {pv!r} is assigned in the loop body and used after the loop "
+                    f"(or carried across iterations), but has no value before the loop.",
+                )
         inputs = [o_loop_bound, o_loop_condition] + [
             self._py_var_to_onnx_var(pv, self._source_of(loop_stmt)) for pv in loop_state_vars
         ]
